@@ -13,13 +13,141 @@ def trace_cfg(run):
     return cfg
 
 
-def drive_and_validate(run, cases, shards, extra=()):
+def drive_and_validate(run, cases, shards, extra=(), more_events=()):
     cases_p, trace_p = run.path("cases.ndjson"), run.path("trace.ndjson")
     core.write_ndjson(cases_p, cases)
     core.vharness(["c03", "--cases", cases_p, "--trace", trace_p] + list(extra), threads=8)
-    events = core.read_ndjson(trace_p)
+    events = core.read_ndjson(trace_p) + list(more_events)
+    core.write_ndjson(trace_p, events)
     consumed, verdicts = core.validate_trace("trace/Trace_C03.tla", trace_cfg(run), trace_p, shards=shards)
     run.judge(events, verdicts, consumed)
+    return events
+
+
+DER_TOML = """[package]
+name = "c03der"
+version = "0.1.0"
+edition = "2021"
+publish = false
+[workspace]
+[dependencies]
+rasn = "0.27"
+"""
+
+
+def tlv(data):
+    """DER bytes -> list of nodes {cls, num, cons, kids}"""
+    out, i = [], 0
+    while i < len(data):
+        b = data[i]
+        cls = ["universal", "application", "context", "private"][b >> 6]
+        cons = bool(b & 0x20)
+        num = b & 0x1F
+        i += 1
+        if num == 0x1F:
+            num = 0
+            while True:
+                num = (num << 7) | (data[i] & 0x7F)
+                i += 1
+                if not data[i - 1] & 0x80:
+                    break
+        ln = data[i]
+        i += 1
+        if ln & 0x80:
+            n = ln & 0x7F
+            ln = int.from_bytes(data[i:i + n], "big")
+            i += n
+        body = data[i:i + ln]
+        i += ln
+        out.append({"cls": cls, "num": num, "cons": cons, "kids": tlv(body) if cons else []})
+    return out
+
+
+def shallow(n):
+    return {"cls": n["cls"], "num": n["num"], "cons": n["cons"]} if n else {"cls": "", "num": -1, "cons": False}
+
+
+def der_probe(run, cases, stride):
+    """the DER encoding rasn produces for a value of every tag point's type (built and run in a scratch crate)"""
+    import shutil, subprocess, time
+    crate = run.path("der")
+    shutil.rmtree(crate, ignore_errors=True)
+    os.makedirs(os.path.join(crate, "src"))
+    os.makedirs(os.path.join(crate, ".cargo"))
+    open(os.path.join(crate, "Cargo.toml"), "w").write(DER_TOML)
+    shutil.copy(os.path.join(core.REPO, "Cargo.lock"), os.path.join(crate, "Cargo.lock"))
+    open(os.path.join(crate, ".cargo", "config.toml"), "w").write(f'[net]\noffline = true\n[build]\ntarget-dir = "{os.path.join(core.ROOT, "work", "target-probe")}"\n')
+    cases_p, plan_p = run.path("der_cases.ndjson"), run.path("der_plan.json")
+    core.write_ndjson(cases_p, cases)
+    core.vharness(["c03der", "--cases", cases_p, "--stride", str(stride), "--crate", crate, "--plan", plan_p], threads=8)
+    plan = json.load(open(plan_p))
+    live = [e for e in plan if e["file"]]
+    rustc_errors = {}
+    t = time.time()
+    for rnd in range(6):
+        main = "#![allow(warnings)]\n" + "".join(f'#[path = "{e["file"]}"]\nmod c_{e["k"]};\n' for e in live)
+        main += "fn main() {\n" + "".join(
+            f'    match c_{e["k"]}::run() {{ Ok(b) => println!("{e["k"]} OK {{}}", b.iter().map(|x| format!("{{:02x}}", x)).collect::<String>()), Err(m) => println!("{e["k"]} ERR {{}}", m.replace(\'\\n\', " ")) }}\n'
+            for e in live) + "}\n"
+        open(os.path.join(crate, "src", "main.rs"), "w").write(main)
+        p = subprocess.run(["cargo", "run", "--offline", "--message-format=json", "-q"], cwd=crate, env=core.clean_env(), stdout=subprocess.PIPE,
+                           stderr=subprocess.PIPE, text=True, timeout=3600)
+        bad = {}
+        lines = []
+        for line in p.stdout.splitlines():
+            if line.startswith("{"):
+                try:
+                    m = json.loads(line)
+                except ValueError:
+                    continue
+                if m.get("reason") == "compiler-message" and m["message"].get("level") == "error":
+                    for sp in [s for s in m["message"].get("spans", []) if s.get("is_primary")][:1]:
+                        bad.setdefault(os.path.basename(sp["file_name"]), []).append(((m["message"].get("code") or {}).get("code") or "") + " " + m["message"]["message"][:200])
+            else:
+                lines.append(line)
+        if not bad:
+            if p.returncode != 0:
+                core.log(p.stderr[-2000:])
+                raise ToolError("the DER probe does not build or run")
+            break
+        stray = [f for f in bad if not f.startswith("c_")]
+        if stray:
+            raise ToolError(f"the DER probe has errors outside the case files: {bad[stray[0]][:2]}")
+        rustc_errors.update(bad)
+        live = [e for e in live if e["file"] not in rustc_errors]
+    else:
+        raise ToolError("the DER probe did not build in 6 rounds")
+    core.log(f"[cargo] DER probe: {len(live)} points encoded, {len(rustc_errors)} files rejected by rustc, {time.time()-t:.1f}s")
+    got = {}
+    for line in lines:
+        parts = line.split(" ", 2)
+        if len(parts) >= 2 and parts[0].isdigit():
+            got[int(parts[0])] = (parts[1], parts[2] if len(parts) > 2 else "")
+    events = []
+    for e in plan:
+        e = dict(e)
+        e["der_status"], e["outer"], e["inner"], e["hex"] = "none", shallow(None), shallow(None), ""
+        if e["file"] in rustc_errors:
+            e["der_status"] = "rustc"
+            e["detail"] = rustc_errors[e["file"]][0]
+        elif e["file"] and e["k"] in got:
+            st, payload = got[e["k"]]
+            if st == "OK":
+                nodes = tlv(bytes.fromhex(payload))
+                # the TLV of the tagged element, by position
+                top = nodes[0] if nodes else None
+                path = {"assignment": 0, "alternative": 0, "component": 1, "element": 1, "nested": 2}[e["pos"]]
+                node = top
+                for _ in range(path):
+                    node = node["kids"][0] if node and node["kids"] else None
+                e["der_status"] = "ok" if node else "short"
+                e["outer"] = shallow(node)
+                e["inner"] = shallow(node["kids"][0]) if node and node["kids"] else shallow(None)
+                e["hex"] = payload
+            else:
+                e["der_status"] = "encode_error"
+                e["detail"] = payload[:200]
+        events.append(e)
     return events
 
 
@@ -39,8 +167,12 @@ def check(tier):
     # mix the module defaults within every batch (TLC emits the cases grouped by module default)
     import random
     random.Random(core.seed()).shuffle(cases)
-    events = drive_and_validate(run, cases, shards=4)
+    # encoding level: rasn's DER bytes for a value of every (quick: every 6th) tag point's type
+    der_events = der_probe(run, cases, 6 if tier == "quick" else 1)
+    events = drive_and_validate(run, cases, shards=4, more_events=der_events)
     run.cov["evaluations"] = len(cases)
+    run.cov["der_points_encoded"] = len([e for e in der_events if e["der_status"] == "ok"])
+    run.cov["der_points_not_encoded"] = len([e for e in der_events if e["der_status"] != "ok"])
     run.cov["distinct_nontrivial"] = len({(e["asn"].split("::=", 1)[1], e["md"]) for e in events if e["status"] == "ok"})
     run.cov["exhaustive"] = True
     run.cov["rule"] = ("TLC enumerates the full product module default {EXPLICIT, IMPLICIT, AUTOMATIC, none} x keyword x class x "
@@ -51,7 +183,8 @@ def check(tier):
     step = max(1, len(events) // 6)
     run.cov["samples"] = [{"asn": e["asn"], "module_default": e["md"], "observed": e.get("obs"), "status": e["status"]}
                           for e in events[::step][:8]]
-    run.assumptions = ["observed at attribute level (rasn annotations); rasn 0.27 encodes a tagged CHOICE-typed field explicitly "
+    run.assumptions = ["encoding level: a value of each tag point's type is synthesised from the projected items, encoded by rasn 0.27's DER codec in a scratch crate and the TLV of the tagged element compared with Tagging.tla (class, number, constructed bit, inner tag of an explicit tag); points whose bindings rustc rejects (C01's findings) are skipped",
+                       "observed at attribute level (rasn annotations); rasn 0.27 encodes a tagged CHOICE-typed field explicitly "
                        "whatever the annotation says, so an implicit marking on CHOICE kinds is accepted",
                        "printer and syn-based projection of the harness are trusted"]
     return run.finish()
